@@ -2,7 +2,9 @@
  * connection whose client byte stream arrives in EXACTLY the read segments the line gives.
  *
  * line:  h2b <table> <seg> <seg> ... q <seg> ... q  (seg = hex octets, "q" ends a step; <table> is
- *        the header-block look-up of the Lean model and is ignored here: lighttpd decodes HPACK)
+ *        the header-block look-up of the Lean model and is ignored here: lighttpd decodes HPACK --
+ *        except for a leading entry "hello=<n0>.<n1>...": the client's hello (connection preface,
+ *        SETTINGS, SETTINGS ack = 42 octets) arrives in reads of these sizes, see con_begin())
  *
  *   Before the line's first segment the connection is set up as the e2e client of c05.py
  *   leaves it: h2_init_con() with the client preface, an empty client SETTINGS and the
@@ -59,6 +61,26 @@ static int g_peer_ready;
 static int g_undelivered;
 static int g_body_corrupt;         /* a request body octet that is not a DATA payload octet ('d') */
 static buffer *blk; static uint32_t blk_sid; static int blk_es, blk_open;
+
+/* own tokenizer: an octet-wise segmentation has far more than LTV_MAXTOK tokens */
+static char *hl_line; static size_t hl_cap;
+static char **hl_tok; static int hl_ntok, hl_tokcap;
+
+static int hl_next(void) {
+    ssize_t n = getline(&hl_line, &hl_cap, stdin);
+    if (n <= 0) return 0;
+    while (n > 0 && (hl_line[n-1] == '\n' || hl_line[n-1] == '\r')) hl_line[--n] = 0;
+    hl_ntok = 0;
+    char *save = NULL;
+    for (char *t = strtok_r(hl_line, " ", &save); t; t = strtok_r(NULL, " ", &save)) {
+        if (hl_ntok == hl_tokcap) {
+            hl_tokcap = hl_tokcap ? hl_tokcap * 2 : 256;
+            hl_tok = realloc(hl_tok, sizeof(char *) * hl_tokcap);
+        }
+        hl_tok[hl_ntok++] = t;
+    }
+    return 1;
+}
 
 static void on_alarm(int sig) {
     UNUSED(sig);
@@ -174,10 +196,18 @@ static void glue_init(void) {
     g_con.write_queue = &g_con.request.write_queue;
     log_epoch_secs = 1700000000;
     log_monotonic_secs = 100000;
+    log_con_jqueue = (connection *)(uintptr_t)&log_con_jqueue;   /*(sentinel, as server.c sets it)*/
     g_cap = buffer_init();
 }
 
-static void con_begin(void) {
+static int call_process(void);
+static int scheduled(int input_waiting);
+static int g_stall;
+static int g_hello_goaway;         /* error code of a GOAWAY sent while the client's hello was read, -1 = ended */
+
+/* hello = "n0.n1.n2..." (or NULL): sizes of the reads in which the client connection preface, the
+ * client's SETTINGS and its SETTINGS ack arrive */
+static void con_begin(const char *hello) {
     request_st * const h2r = &g_con.request;
     memcpy(&h2r->conf, &g_defconf, sizeof(request_config));
     chunkqueue_reset(g_con.read_queue);
@@ -195,18 +225,57 @@ static void con_begin(void) {
     h2r->http_version = HTTP_VERSION_2;
     h2r->keep_alive = 0;
     /* client connection preface + empty SETTINGS + ack of the server's SETTINGS */
-    static const unsigned char hello[] =
+    static const unsigned char hello_octets[] =
       "PRI * HTTP/2.0\r\n\r\nSM\r\n\r\n"
       "\x00\x00\x00\x04\x00\x00\x00\x00\x00"
       "\x00\x00\x00\x04\x01\x00\x00\x00\x00";
-    chunkqueue_append_mem(g_con.read_queue, (const char *)hello, sizeof(hello)-1);
-    h2_init_con(h2r, &g_con);
-    h2_process_streams(&g_con, producer, hw_capture);
+    const size_t hlen = sizeof(hello_octets)-1;
+    g_hello_goaway = 0;
+    if (NULL == hello) {
+        chunkqueue_append_mem(g_con.read_queue, (const char *)hello_octets, hlen);
+        h2_init_con(h2r, &g_con);
+        h2_process_streams(&g_con, producer, hw_capture);
+    }
+    else {
+        /* cleartext prior knowledge: h1_recv_headers() hands the connection over once the first
+         * 18 octets ("PRI * HTTP/2.0" CRLF CRLF) are in the read queue (it makes them one chunk);
+         * connection_transition_h2() -> h2_init_con(), then connection_state_machine();
+         * every later read goes through con->network_read (the preface filter h2_init_con()
+         * installs while fewer than 24 octets are there) inside h2_process_streams() */
+        size_t pos = 0, n = 0;
+        const char *p = hello;
+        while (pos + n < 18 && *p >= '0' && *p <= '9') { n += (size_t)strtoul(p, (char **)&p, 10); if (*p == '.') ++p; }
+        if (pos + n < 18 || pos + n > hlen) n = hlen;
+        deliver(g_con.read_queue, hello_octets, n);
+        pos = n;
+        h2_init_con(h2r, &g_con);
+        g_con.is_readable = 0;
+        call_process();
+        while (pos < hlen && g_con.hx) {
+            n = (*p >= '0' && *p <= '9') ? (size_t)strtoul(p, (char **)&p, 10) : hlen - pos;
+            if (*p == '.') ++p;
+            if (0 == n || n > hlen - pos) n = hlen - pos;
+            g_seg = hello_octets + pos; g_seglen = n; g_seg_pending = 1;
+            for (int tries = 0; tries < 64 && g_con.hx && g_seg_pending; ++tries) {
+                if (!scheduled(1)) break;
+                call_process();
+            }
+            g_seg_pending = 0;
+            pos += n;
+        }
+        g_con.is_readable = 0;
+        for (int i = 0; i < 64 && scheduled(0); ++i)
+            if (call_process()) break;
+        if (NULL == g_con.hx) g_hello_goaway = -1;
+        else if (((h2con *)g_con.hx)->sent_goaway) g_hello_goaway = ((h2con *)g_con.hx)->sent_goaway;
+        else if (((h2con *)g_con.hx)->sent_settings || !chunkqueue_is_empty(g_con.read_queue)) g_hello_goaway = -2;
+    }
     buffer_clear(g_cap);                       /* drop server preface, SETTINGS ack */
     if (g_peer_ready) lshpack_dec_cleanup(&g_peer);
     lshpack_dec_init(&g_peer);
     g_peer_ready = 1;
     g_undelivered = 0;
+    g_stall = 0;
     g_body_corrupt = 0;
     blk_open = 0;
 }
@@ -267,28 +336,39 @@ static void read_part(const unsigned char *p, size_t n) {
     if (g_con.hx) g_undelivered = 1;
 }
 
+/* The event loop of server.c, as far as one connection sees it: connection_state_machine() runs
+ * when the connection is in the job queue (joblist_append(): con->jqnext set) or when the socket
+ * is readable AND read interest is on (connection_set_fdevent_interest(): FDEVENT_IN iff
+ * FDEVENT_STREAM_REQUEST_POLLIN, which h2_process_streams() sets from h2_want_read());
+ * connection_handle_fdevent() then sets con->is_readable.  The client always reads at once, so
+ * there are no write events.  Input that is there while neither holds is never read: the
+ * connection has stopped making progress (until a timeout) -- reported as STALL. */
+static int scheduled(int input_waiting) {
+    if (NULL == g_con.hx) return 0;
+    int run = (NULL != g_con.jqnext);
+    if (input_waiting && (g_con.request.conf.stream_request_body & FDEVENT_STREAM_REQUEST_POLLIN)) {
+        g_con.is_readable = 1;
+        run = 1;
+    }
+    g_con.jqnext = NULL;
+    return run;
+}
+
 /* the last segment of a step: delivered by con->network_read inside h2_process_streams() */
 static void read_last(const unsigned char *p, size_t n) {
     g_seg = p; g_seglen = n; g_seg_pending = 1;
-    for (int tries = 0; tries < 16 && g_con.hx && g_seg_pending; ++tries) {
-        g_con.is_readable = 1;
+    for (int tries = 0; tries < 64 && g_con.hx && g_seg_pending; ++tries) {
+        if (!scheduled(1)) { g_stall = 1; break; }
         call_process();
     }
-    if (g_seg_pending && g_con.hx) g_undelivered = 1;
+    if (g_seg_pending && g_con.hx && !g_stall) g_undelivered = 1;
     g_seg_pending = 0;
     g_con.is_readable = 0;
 }
 
 static void quiesce(void) {
-    for (int i = 0; i < 4096 && g_con.hx; ++i) {
-        const uint32_t before = buffer_clen(g_cap);
-        const off_t rq = chunkqueue_length(g_con.read_queue);
-        const uint32_t rused = ((h2con *)g_con.hx)->rused;
+    for (int i = 0; i < 4096 && scheduled(0); ++i)
         if (call_process()) break;
-        if (buffer_clen(g_cap) == before && chunkqueue_length(g_con.read_queue) == rq
-            && ((h2con *)g_con.hx)->rused == rused)
-            break;
-    }
 }
 
 /* :status of a response header block, decoded as the client would */
@@ -356,18 +436,18 @@ int main(void) {
     glue_init();
     setvbuf(stdout, NULL, _IOLBF, 1 << 16);    /* a sanitizer abort must not lose finished lines */
     signal(SIGALRM, on_alarm);
-    while (ltv_next()) {
+    while (hl_next()) {
         alarm(60);
-        if (ltv_ntok < 2 || 0 != strcmp(ltv_tok[0], "h2b")) { puts("bad-op"); continue; }
-        con_begin();
+        if (hl_ntok < 2 || 0 != strcmp(hl_tok[0], "h2b")) { puts("bad-op"); continue; }
+        con_begin(0 == strncmp(hl_tok[1], "hello=", 6) ? hl_tok[1] + 6 : NULL);
         int first = 1;
-        for (int k = 2; k < ltv_ntok; ) {
+        for (int k = 2; k < hl_ntok; ) {
             /* one step: tokens up to the next "q" */
             int e = k;
-            while (e < ltv_ntok && 0 != strcmp(ltv_tok[e], "q")) ++e;
+            while (e < hl_ntok && 0 != strcmp(hl_tok[e], "q")) ++e;
             for (int j = k; j < e; ++j) {
                 size_t n = 0;
-                unsigned char *p = ltv_unhex(ltv_tok[j], &n);
+                unsigned char *p = ltv_unhex(hl_tok[j], &n);
                 if (j + 1 < e) read_part(p, n);
                 else           read_last(p, n);
                 free(p);
@@ -376,6 +456,8 @@ int main(void) {
             print_step(first); first = 0;
             k = e + 1;
         }
+        if (g_hello_goaway) printf(" HELLO-FAILED%d", g_hello_goaway);
+        if (g_stall) fputs(" STALL", stdout);
         if (g_undelivered) fputs(" UNDELIVERED", stdout);
         if (g_body_corrupt) fputs(" BODY-CORRUPT", stdout);
         fputs(g_con.hx ? " | open" : " | fin", stdout);
